@@ -255,6 +255,25 @@ def run_mixed(cfg, out):
                        ctxt_setup=lambda ctxt: ctxt.setConnectionTimeout(30.0)) as run:
                 w = run.world
                 w.net.heal(0.004)
+                # an application that sends right after connect() returned, on a connect attempt that FAILS (server unreachable):
+                # nothing it handed to send() may ever travel in clear - not after the connect timeout, not after an abort
+                for variant in ("timeout", "abort"):
+                    x = w.add_client()
+                    cut_x = lambda direction, addr, d, info, _a=x.addr: "drop" if addr == _a else None
+                    w.net.filters.append(cut_x)
+                    x.udp.setConnectionTimeout(0.3)
+                    x.on_connecting.append(lambda cl: [cl.udp.send(L.make_payload(cl.sender_id, 900000 + k, 40 + 100 * k), retry=rm) for k, rm in enumerate((-1, 0, 1))])
+                    x.connect()
+                    if variant == "timeout":
+                        w.step(int(1.6 / w.dt))
+                    else:
+                        w.step(4)
+                        x.udp.disconnect()
+                        x.wait_for_disconnect()
+                        w.step(10)
+                    run.c.inc("failed_connects_with_early_sends")
+                    w.net.filters.remove(cut_x)
+                    w.remove_client(x)
                 c = connect_at(w, r.choice([0, 65100, 65530]), run.C)
                 c.updates_per_step = 2
                 # the very first datagram of the session (the hello) is duplicated / replayed later, while the server
@@ -332,7 +351,7 @@ def finish(tier, seed, results):
     inconclusive = []
     need(m["counters"], ["wire_gcm", "nonces_recorded", "wire_server_hello_clear", "silent_peer_datagrams", "silent_wraps",
                          "mirror_same_time_seq_ack_in_both_directions", "wire_c2s", "wire_s2c", "idlespin_spins",
-                         "client_hello_replayed_after_key_agreement", "client_wait_for_disconnect_calls", "datagrams_during_wait_for_disconnect",
+                         "client_hello_replayed_after_key_agreement", "client_wait_for_disconnect_calls", "datagrams_during_wait_for_disconnect", "failed_connects_with_early_sends",
                          "server_timed_out_client_while_sending"], inconclusive)
     cov = {
         "evaluations": m["evaluations"],
